@@ -178,29 +178,43 @@ class Model:
 
     # ---- generic shape checks (return (ok, detail)) ---------------------------
     def generate_ast_shape(self):
-        """left := parse_number()?; while prec < cur.get_oper_prec() { [if cur==Eof {break}] left := ctn(left)? }; Ok(left)"""
+        """left := parse_number()?; while prec < cur.get_oper_prec() [&& cur != Eof] { left := ctn(left)? }; Ok(left)
+        -- the loop condition is read as a set of conjuncts (any order; an `if cur == Eof {break}` inside the body is the
+        same conjunct), so only the comparison itself is constrained: strict `<`, level parameter on the left"""
         f = self.tb.fn("::parser::Parser::generate_ast")
         if f is None:
             return False, "generate_ast not found"
         t = self.tb.parser_term(f)
-        LT = "(call \"<utils::operator_category::OperatorCategory as cmp::PartialOrd>::lt\" (param ?prec) (call Token.get_oper_prec %s))" % T.show(CUR)
-        EOFBRK = "(if (call \"<Token as cmp::PartialEq>::eq\" %s (ctor Token::Eof)) (break) (unit))" % T.show(CUR)
-        STEP1 = "(let ?r (try (call P.convert_token_to_node (param self) (var ?l)))) (set (var ?l) (var ?r))"
-        STEP2 = "(set (var ?l) (try (call P.convert_token_to_node (param self) (var ?l))))"
-        pats = []
-        for step in (STEP1, STEP2):
-            for eof in (EOFBRK + " ", ""):
-                pats.append("(seq (let ?l (try (call P.parse_number (param self)))) (loop (if %s (seq %s%s) (break))) (Ok (var ?l)))" % (LT, eof, step))
-                if not eof:
-                    pats.append("(seq (let ?l (try (call P.parse_number (param self)))) (loop (if %s %s (break))) (Ok (var ?l)))" % (LT, step if step == STEP2 else "(seq %s)" % step))
-        for p in pats:
-            e = M(p, t)
-            if e is not None:
-                if e["?prec"] != self._param_name(f, 1):
-                    return False, "compared value is not the precedence parameter"
-                return True, "strict `<` between the level parameter and the current token's category"
-        # diagnose common deviations
+        LT = P("(call \"<utils::operator_category::OperatorCategory as cmp::PartialOrd>::lt\" (param ?prec) (call Token.get_oper_prec %s))" % T.show(CUR))
+        EQ, NE = "<Token as cmp::PartialEq>::eq", "<Token as cmp::PartialEq>::ne"
+        EOF_ = ("ctor", "Token::Eof")
+        NE_EOF = [("call", NE, CUR, EOF_), ("call", NE, EOF_, CUR), ("un", "not", "bool", ("call", EQ, CUR, EOF_)), ("un", "not", "bool", ("call", EQ, EOF_, CUR))]
+        EOFBRK = [("if", ("call", EQ, CUR, EOF_), ("break",), ("unit",)), ("if", ("call", EQ, EOF_, CUR), ("break",), ("unit",))]
+        e = M(("seq", ("let", "?l", ("try", ("call", "P.parse_number", ("param", "self")))), ("loop", ("if", "?c", "?step", ("break",))), ("Ok", ("var", "?l"))), t)
         s = T.show(t)
+        if e is None:
+            return False, "UNRECOGNISED generate_ast shape: %s" % s[:400]
+        conj = []
+
+        def flat(c):
+            if isinstance(c, tuple) and c and c[0] == "op" and len(c) == 5 and c[1] == "and":
+                flat(c[3]); flat(c[4])
+            else:
+                conj.append(c)
+        flat(e["?c"])
+        step = e["?step"]
+        items = list(step[1:]) if isinstance(step, tuple) and step and step[0] == "seq" else [step]
+        while items and items[0] in EOFBRK:
+            items.pop(0)
+        L = ("var", e["?l"])
+        CTN = ("try", ("call", "P.convert_token_to_node", ("param", "self"), L))
+        okstep = items == [("set", L, CTN)] or (len(items) == 2 and M(("let", "?r", CTN), items[0]) is not None and items[1] == ("set", L, ("var", items[0][1])))
+        lts = [c for c in conj if unify(LT, c) is not None]
+        rest = [c for c in conj if unify(LT, c) is None]
+        if len(lts) == 1 and all(c in NE_EOF for c in rest) and okstep:
+            if unify(LT, lts[0])["?prec"] != self._param_name(f, 1):
+                return False, "compared value is not the precedence parameter"
+            return True, "strict `<` between the level parameter and the current token's category"
         if "PartialOrd>::le" in s:
             return False, "climb uses `<=` instead of strict `<` (would make equal-precedence operators right-associative)"
         if "PartialOrd>::gt" in s or "PartialOrd>::ge" in s:
